@@ -107,7 +107,13 @@ func (s *Session) MisuseMatrix() MisuseStats {
 		}},
 		{"Close", func(c *misuseCtx) error { return c.tx.Close() }, func(st string) []string { return []string{"ok"} }},
 		{"CheckpointWAL", func(c *misuseCtx) error { return c.tx.CheckpointWAL() }, writeExp},
-		{"Flush", func(c *misuseCtx) error { return c.tx.Flush() }, writeExp},
+		{"Flush", func(c *misuseCtx) error { return c.tx.Flush() }, func(st string) []string {
+			e := writeExp(st)
+			if e[0] == "ok" {
+				return []string{"ok", "err:oom"}
+			}
+			return e
+		}},
 		{"Alloc", func(c *misuseCtx) error { _, err := c.tx.Alloc(); return err }, func(st string) []string {
 			e := writeExp(st)
 			if e[0] == "ok" {
@@ -265,7 +271,13 @@ func (s *Session) MisuseMatrix() MisuseStats {
 		{"SetBytes(full)", func(p *txfile.Page) error { return p.SetBytes(Render(Content{ID: 9, S1: 9, S2: 9}, ps)) }, noWrite("")},
 		{"SetBytes(partial)", func(p *txfile.Page) error { return p.SetBytes(make([]byte, 10)) }, noWrite("")},
 		{"SetBytes(oversize)", func(p *txfile.Page) error { return p.SetBytes(make([]byte, ps+1)) }, noWrite("err:param")},
-		{"Flush", func(p *txfile.Page) error { return p.Flush() }, noWrite("")},
+		{"Flush", func(p *txfile.Page) error { return p.Flush() }, func(state string) []string {
+			e := noWrite("")(state)
+			if state == "dirty" && e[0] == "ok" {
+				return []string{"ok", "err:oom"} // flushing an overwritten page needs an overwrite page: a full file may refuse
+			}
+			return e
+		}},
 		{"Free", func(p *txfile.Page) error { return p.Free() }, func(state string) []string {
 			switch state {
 			case "dirty", "new-written":
